@@ -40,7 +40,12 @@ def constructor_rules(ctx, prog):
                        for a in args[0] if a != "NULL")
         tok = ("ext", "fileno(%s)" % ",".join(names))
         from ..models import with_errno
-        return [(with_errno(st, fs(I.abs_int(9))), fs(-1)), (st, fs(tok))]
+        # glibc: fileno() answers with the number recorded in the FILE; it does not look whether that descriptor is still open
+        # (the parent may run with 0, 1 or 2 closed).  Only an F_GETFD probe (fcntl model) settles it.
+        ok = st.copy()
+        if any(n in ("stdin", "stdout", "stderr") for n in names):
+            ok.res[tok] = ("maybe-closed",)
+        return [(with_errno(st, fs(I.abs_int(9))), fs(-1)), (ok, fs(tok))]
 
     def m_open_rec(I, fn, n, args, st):
         outs = m_open(I, fn, n, args, st)
@@ -111,6 +116,11 @@ def constructor_rules(ctx, prog):
                 if isinstance(ct, tuple) and ct[0] == "ext":
                     ok = ok and ct == ("ext", "fileno(%s)" % STDFILE[stream])
                     what = "the parent's own %s (by fileno)" % STDFILE[stream]
+                    ctx.ob("C10.W2c", "redirect_parent [stream=%s]" % stream, "the number fileno() gives for the parent's stream is handed to the "
+                           "child only after it has been established that the descriptor is open (glibc's fileno does not fail for a "
+                           "closed descriptor): otherwise 'the parent's stream' is nothing, or whatever was opened on that number since - "
+                           "not the null device the property asks for", st.res.get(ct, ("open",))[0] == "open",
+                           {"descriptor_state": st.res.get(ct, ("open",))[0], "child_end": show(chi)}, nontrivial=True)
                 else:
                     op = st.res.get(("opened", ct))
                     ok = ok and op is not None and op[0] == fs(("str", "/dev/null")) and eff == fs(prog.const("REPROC_REDIRECT_DISCARD"))
@@ -280,6 +290,27 @@ def wiring_rules(ctx, prog):
                    "decided for this stream - its own pipe end, file, handle ... - and stderr shares stdout's descriptor only when it was "
                    "validated as 'stdout'", ok, {"handle": str(a), "kind": kind, "stdout_handle": str(hv["out"])}, nontrivial=True)
     ctx.floor("C10.W4t", 18)
+    # W7: in the forked child (fork option) the child ends have become descriptors 0, 1, 2.  The exit block of reproc_start runs
+    # there too and releases "the child's ends" by number; an end that was created on 0, 1 or 2 (the parent runs with that
+    # descriptor closed) IS the stream and must not be closed - unless the path has established that its number is above 2
+    unguarded = {}
+    nclose = 0
+    for e in res.events:
+        if e[0] != "close" or e[4] is None or e[4].mon.get("proc") != "child":
+            continue
+        st = e[4]
+        ends = st.mon.get("child_ends") or frozenset()
+        for a in e[3]:
+            if a in ends:
+                nclose += 1
+                facts = {(o, c) for (t, o, c) in st.mon.get("fdrange", frozenset()) if t == a}
+                above = any((o == ">" and c >= 2) or (o == ">=" and c >= 3) or (o == "<" and c <= 0) or (o == "<=" and c < 0) for o, c in facts)
+                if not above:
+                    unguarded.setdefault("/".join(e[5][-2:]) + ": " + site_of(e[1], e[2]), set()).add(str(a[1]))
+    ctx.ob("C10.W7", "reproc_start [in the forked child]", "after a fork-mode start the child's stdin, stdout and stderr stay what was installed: "
+           "no child end is closed by number in the forked child while that number may be 0, 1 or 2 (where the end itself is the "
+           "standard stream because the parent had that descriptor closed)", not unguarded,
+           {"closes_in_child": nclose, "unguarded": {k: sorted(v) for k, v in list(unguarded.items())[:4]}}, nontrivial=True)
     ctx.ob("C10.W4s", "reproc_start -> process_start", "on every path reaching process_start the three handles are definite values "
            "produced by the constructors", bad == 0 and n > 0, {"calls": n, "indefinite": bad}, nontrivial=True)
 
